@@ -1,0 +1,64 @@
+//go:build verif
+
+// Contracts for govc (/verif): C33 fixed-point amounts behave like exact arithmetic. Comment-only file.
+
+package common
+
+//@ func (x Integer) Sign
+//@   property C33
+//@   pure
+//@   ensures (result == 0 - 1 <==> val(x) < 0) && (result == 0 <==> val(x) == 0) && (result == 1 <==> val(x) > 0)
+
+//@ func (x Integer) Cmp
+//@   property C33
+//@   pure
+//@   ensures (result == 0 - 1 <==> val(x) < val(y)) && (result == 0 <==> val(x) == val(y)) && (result == 1 <==> val(x) > val(y))
+
+//@ func (x Integer) Add
+//@   property C33
+//@   panics when val(x) < 0 || val(y) <= 0
+//@   modifies nothing
+//@   ensures val(v) == val(x) + val(y)
+
+//@ func (x Integer) Sub
+//@   property C33
+//@   panics when val(x) < 0 || val(y) <= 0 || val(x) < val(y)
+//@   modifies nothing
+//@   ensures val(v) == val(x) - val(y) && val(v) >= 0
+
+//@ func (x Integer) Mul
+//@   property C33
+//@   panics when val(x) < 0 || y <= 0
+//@   modifies nothing
+//@   ensures val(v) == val(x) * y
+
+//@ func (x Integer) Div
+//@   property C33
+//@   panics when val(x) < 0 || y <= 0
+//@   modifies nothing
+//@   ensures val(v) == val(x) / y
+
+//@ func (x Integer) Count
+//@   property C33
+//@   panics when val(x) <= 0 || val(y) <= 0 || val(x) < val(y) || val(x) / val(y) >= 18446744073709551616
+//@   modifies nothing
+//@   ensures result == val(x) / val(y)
+
+//@ func (x Integer) Ration
+//@   property C33
+//@   panics when val(x) < 0 || val(y) <= 0
+//@   modifies nothing
+//@   ensures v.x == val(x) && v.y == val(y)
+
+//@ func (r RationalNumber) Product
+//@   property C33
+//@   requires r.y > 0
+//@   panics when val(x) < 0
+//@   modifies nothing
+//@   ensures val(v) == (val(x) * r.x) / r.y
+
+//@ func (r RationalNumber) Cmp
+//@   property C33
+//@   requires r.y > 0 && x.y > 0
+//@   modifies nothing
+//@   ensures (result < 0 <==> r.x * x.y < x.x * r.y) && (result == 0 <==> r.x * x.y == x.x * r.y) && (result > 0 <==> r.x * x.y > x.x * r.y)
